@@ -111,6 +111,7 @@ func c10Drive(args []string) int {
 		sum.Traces++
 	}
 	for _, f := range c10Formats() {
+		emit(M{"kind": "progress", "format": f.Name}) // names the format should the runtime kill the process (vlib.RepoCrash)
 		sch, err, p := newSchema([]byte(f.Schema))
 		if err != nil || p != "" {
 			fmt.Println("error: c10 schema rejected", f.Name, err, p)
